@@ -1,4 +1,172 @@
-(* Toy.v -- stub; the model that belongs here is being written. *)
-From P7 Require Import Prelude.
+(* Toy.v -- executable entry points (FN 380-399) of the streaming models, for the
+   correspondence check of property C01 (tools/harness/c01.py):
+
+     Decomp.v  SevenZipDecompressor.decompress / Worker.decompress over toy stages,
+     Comp.v    SevenZipCompressor.compress / flush / unpacksizes over toy stages,
+     Aes.v     AESCompressor / AESDecompressor over the toy block cipher (xor 90),
+     and chains mixing toy stages with the AES residue machines on both sides.
+
+   The Python harness replaces `.chain` of real SevenZipCompressor / SevenZipDecompressor
+   objects by Python mirrors of these toy stages (and the `.cipher` of real AESCompressor /
+   AESDecompressor objects by a mirror of the toy cipher) and compares every call.
+   Definitions only; the theorems about them are in Decomp.v, Comp.v, Aes.v, RoundTrip.v. *)
+From P7 Require Import Prelude Crc32 Decomp Comp RoundTrip.
+From P7 Require Aes.
 Open Scope Z_scope.
-Definition toy_dispatch (fn : Z) (a : tree) : tree := TL [TI (-2)].
+
+(* ---- stages: a toy stage or an AES residue machine ---------------------- *)
+Inductive dstage := DS (s : toy_state) | DA (s : aes_dstage).
+Inductive cstage := CS (s : toy_state) | CA (s : Aes.cstate).
+
+Definition mix_dstep (s : dstage) (data : bytes) (ml : Z) : dstage * bytes :=
+  match s with
+  | DS t => let '(t', o) := toy_dstep t data ml in (DS t', o)
+  | DA a => let '(a', o) := aes_dstep Aes.toyD a data ml in (DA a', o)
+  end.
+
+Definition mix_cstep (s : cstage) (data : bytes) : cstage * bytes :=
+  match s with
+  | CS t => let '(t', o) := toy_cstep t data in (CS t', o)
+  | CA a => let '(a', o) := aes_cstep Aes.toyE a data in (CA a', o)
+  end.
+
+Definition mix_cflush (s : cstage) : cstage * bytes :=
+  match s with
+  | CS t => let '(t', o) := toy_cflush t in (CS t', o)
+  | CA a => let '(a', o) := aes_cflush Aes.toyE a in (CA a', o)
+  end.
+
+(* stage trees: [tag; k; pending] for a toy stage, [9; iv; buffered] for AES *)
+Definition t_dstage (t : tree) : dstage :=
+  if of_TI (tnth t 0) =? 9
+  then DA (Ok {| Aes.dbuf := of_bytes (tnth t 2); Aes.dcst := of_bytes (tnth t 1) |})
+  else DS (t_toy_state t).
+Definition t_cstage (t : tree) : cstage :=
+  if of_TI (tnth t 0) =? 9
+  then CA {| Aes.cbuf := of_bytes (tnth t 2); Aes.ccst := of_bytes (tnth t 1) |}
+  else CS (t_toy_state t).
+
+Definition dstage_failed (s : dstage) : bool :=
+  match s with DA (Err _) => true | _ => false end.
+
+(* per-call results; a call during which the AES stage raised is reported as Err EOther
+   (ValueError of pycryptodome) and ends the trace *)
+Fixpoint mix_trace (st : dstate dstage) (calls : list (Z * nat)) : list (res bytes) :=
+  match calls with
+  | [] => []
+  | (ml, rd) :: calls' =>
+    match decompress mix_dstep st ml rd with
+    | Ok (st', out) =>
+      if existsb dstage_failed (stages st') then [Err EOther]
+      else Ok out :: mix_trace st' calls'
+    | Err e => [Err e]
+    end
+  end.
+
+(* args: [states; unpacksizes; input_size; block_size; packed; calls] *)
+Definition mix_run_t (t : tree) : tree :=
+  TL (map (t_res t_bytes)
+          (mix_trace (init_state (map t_dstage (of_TL (tnth t 0))) (map of_TI (of_TL (tnth t 1)))
+                                 (of_TI (tnth t 2)) (of_TI (tnth t 3)) (of_bytes (tnth t 4)))
+                     (map t_call (of_TL (tnth t 5))))).
+
+(* args: [fuel; states; unpacksizes; input_size; block_size; packed; sizes; mb; scheds]
+   result: res [member bytes ...]; Err EOther if the AES stage raised on the way *)
+Definition mix_extract_t (t : tree) : tree :=
+  let st0 := init_state (map t_dstage (of_TL (tnth t 1))) (map of_TI (of_TL (tnth t 2)))
+                        (of_TI (tnth t 3)) (of_TI (tnth t 4)) (of_bytes (tnth t 5)) in
+  t_res (fun l => TL (map t_bytes l))
+        (do r <- extract_members mix_dstep (Z.to_nat (of_TI (tnth t 0))) st0
+                                 (map of_TI (of_TL (tnth t 6))) (of_TI (tnth t 7))
+                                 (map (fun s => map (fun x => Z.to_nat (of_TI x)) (of_TL s))
+                                      (of_TL (tnth t 8)));
+         let '(st', outs) := r in
+         if existsb dstage_failed (stages st') then Err EOther else Ok outs).
+
+Definition t_cstage_out (s : cstage) : tree :=
+  match s with
+  | CS (tag, k, pend) => TL [TI tag; TI k; t_bytes pend]
+  | CA a => TL [TI 9; t_bytes (Aes.ccst a); t_bytes (Aes.cbuf a)]
+  end.
+
+(* args: [fuel; states; block_size; members = [[bytes; sched] ...]]
+   result: res [[unpacksizes; digest; packsize; written; states]; infos; flush result] *)
+Definition mix_session_t (t : tree) : tree :=
+  t_res (fun r : cstate cstage * list (Z * Z * Z) * Z =>
+           let '(st, infos, n) := r in
+           TL [TL [TL (map TI (cunpack st)); TI (cdigest st); TI (cpacksize st); t_bytes (cout st);
+                   TL (map t_cstage_out (cstages st))];
+               TL (map t_info infos); TI n])
+        (write_session mix_cstep mix_cflush (Z.to_nat (of_TI (tnth t 0)))
+                       (cinit (map t_cstage (of_TL (tnth t 1))) (of_TI (tnth t 2)))
+                       (map t_member (of_TL (tnth t 3)))).
+
+(* ---- AESCompressor / AESDecompressor alone, toy cipher ----------------------- *)
+(* ops: a byte list = compress(data); an integer = flush().  One result per op:
+   res bytes (Err EOther = the cipher was handed a length that is not a multiple of 16) *)
+Fixpoint aes_c_run (st : Aes.cstate) (ops : list tree) : list tree :=
+  match ops with
+  | [] => [TL [t_bytes (Aes.ccst st); t_bytes (Aes.cbuf st)]]
+  | op :: ops' =>
+    let r := match op with
+             | TI _ => Aes.aes_flush_chk Aes.toyE st
+             | TL _ => Aes.aes_compress_chk Aes.toyE st (of_bytes op)
+             end in
+    match r with
+    | Ok (st', o) => TL [TI 0; t_bytes o] :: aes_c_run st' ops'
+    | Err e => [TL [TI 1; t_err e]]
+    end
+  end.
+
+Fixpoint aes_d_run (st : Aes.dstate) (chunks : list tree) : list tree :=
+  match chunks with
+  | [] => [TL [t_bytes (Aes.dcst st); t_bytes (Aes.dbuf st)]]
+  | c :: chunks' =>
+    match Aes.aes_decompress_chk Aes.toyD st (of_bytes c) with
+    | Ok (st', o) => TL [TI 0; t_bytes o] :: aes_d_run st' chunks'
+    | Err e => [TL [TI 1; t_err e]]
+    end
+  end.
+
+(* reference stream functions *)
+Definition aes_ref_enc_t (t : tree) : tree :=
+  t_bytes (fst (Aes.cbc_enc Aes.toyE (of_bytes (tnth t 0)) (Aes.pad16 (of_bytes (tnth t 1))))).
+Definition aes_ref_dec_t (t : tree) : tree :=
+  t_bytes (fst (Aes.cbc_dec Aes.toyD (of_bytes (tnth t 0)) (Aes.pad16 (of_bytes (tnth t 1))))).
+
+Definition toy_dispatch (fn : Z) (a : tree) : tree :=
+  match fn with
+  (* FN 380 toy_run_t : (states unpacksizes input_size block_size packed calls) -> [res bytes ...] *)
+  | 380 => toy_run_t a
+  (* FN 381 toy_worker_t : (fuel states unpacksizes input_size block_size packed size mb sched) -> res bytes *)
+  | 381 => toy_worker_t a
+  (* FN 382 toy_session_t : (fuel states block_size members) -> res (state infos flushed) *)
+  | 382 => toy_session_t a
+  (* FN 383 toy_ops_t : (fuel states unpacksizes block_size ops) -> [res ... ; state] *)
+  | 383 => toy_ops_t a
+  (* FN 384 unpacksizes_prop_t : (methods_map unpacksizes) -> res [int ...] *)
+  | 384 => unpacksizes_prop_t a
+  (* FN 385 dec_unpacksizes_t : (methods_map unpacksizes) -> res [int ...] *)
+  | 385 => dec_unpacksizes_t a
+  (* FN 386 aes_c_run_t : (iv buffered ops) -> [res bytes ... ; (cipher_state buffered)] *)
+  | 386 => TL (aes_c_run {| Aes.cbuf := of_bytes (tnth a 1); Aes.ccst := of_bytes (tnth a 0) |}
+                         (of_TL (tnth a 2)))
+  (* FN 387 aes_d_run_t : (iv buffered chunks) -> [res bytes ... ; (cipher_state buffered)] *)
+  | 387 => TL (aes_d_run {| Aes.dbuf := of_bytes (tnth a 1); Aes.dcst := of_bytes (tnth a 0) |}
+                         (of_TL (tnth a 2)))
+  (* FN 388 mix_run_t : (states unpacksizes input_size block_size packed calls) -> [res bytes ...] *)
+  | 388 => mix_run_t a
+  (* FN 389 mix_extract_t : (fuel states unpacksizes input_size block_size packed sizes mb scheds) -> res [bytes ...] *)
+  | 389 => mix_extract_t a
+  (* FN 390 mix_session_t : (fuel states block_size members) -> res (state infos flushed) *)
+  | 390 => mix_session_t a
+  (* FN 391 aes_ref_enc_t : (iv plain) -> bytes *)
+  | 391 => aes_ref_enc_t a
+  (* FN 392 aes_ref_dec_t : (iv cipher) -> bytes *)
+  | 392 => aes_ref_dec_t a
+  (* FN 393 mv_chunks_t : (fuel p n bs V) -> ([chunk ...] ok) *)
+  | 393 => let cs := mv_chunks (Z.to_nat (of_TI (tnth a 0))) (of_TI (tnth a 1)) (of_TI (tnth a 2))
+                               (of_TI (tnth a 3)) (of_TI (tnth a 4)) in
+           TL [TL (map TI cs); t_bool (dec_sizes_ok 0 cs)]
+  | _ => TL [TI (-2)]
+  end.
